@@ -153,3 +153,7 @@ func VerifC19_FibMirror() {
 		}
 	}
 }
+
+// VerifXC19Age makes a neighbour look as if it had last been heard of d earlier (the harness in package dv cannot
+// reach the unexported field; natively the clock cannot be advanced).
+func VerifXC19Age(ns *NeighborState, d time.Duration) { ns.lastSeen = ns.lastSeen.Add(-d) }
